@@ -57,6 +57,12 @@ def cases(draw):
                           "styles": draw(st.lists(st.integers(0, 1), min_size=4, max_size=4))} for i in range(n)]
     else:
         case["target"] = draw(common.target_spec(g))
+        if case["target"]["mode"] == "classes" and draw(st.integers(0, 3)) == 0:
+            # the same class named twice (another spelling): still one shape per class, in the order of the list
+            cs = case["target"]["classes"]
+            k = draw(st.integers(0, len(cs) - 1))
+            if not cs[k].startswith("_:"):
+                cs.insert(draw(st.integers(0, len(cs))), draw(st.sampled_from(["<%s>" % cs[k], cs[k]])))
     if chan == "endpoint":
         case["cache_off"] = draw(st.booleans())
     if chan == "nt" and draw(st.integers(0, 1)) == 0:
